@@ -346,6 +346,23 @@ def durable_execution(
                 checkpoint_future.result()
                 execution_state.raise_if_checkpointing_failed()
 
+            def answer_for_failed_checkpointing() -> MutableMapping[str, Any] | None:
+                """The answer a failed checkpoint call demands, or None if no call has failed.
+
+                A failed call takes precedence over the error the handler ended with: it is raised
+                for a Lambda retry or reported as FAILED according to its own classification.
+                """
+                try:
+                    raise_if_checkpointing_failed()
+                except BackgroundThreadError as bg_error:
+                    logger.exception("Checkpoint processing failed")
+                    if isinstance(bg_error.source_exception, CheckpointError):
+                        return handle_checkpoint_error(
+                            bg_error.source_exception
+                        ).to_dict()
+                    raise bg_error.source_exception from bg_error
+                return None
+
             # Thread 2: Execute user function
             logger.debug(
                 "%s entering user-space...", invocation_input.durable_execution_arn
@@ -446,10 +463,14 @@ def durable_execution(
                 return handle_checkpoint_error(e).to_dict()
             except InvocationError:
                 logger.exception("Invocation error. Must terminate.")
+                if (answer := answer_for_failed_checkpointing()) is not None:
+                    return answer
                 # Throw the error to trigger Lambda retry
                 raise
             except ExecutionError as e:
                 logger.exception("Execution error. Must terminate without retry.")
+                if (answer := answer_for_failed_checkpointing()) is not None:
+                    return answer
                 return DurableExecutionInvocationOutput(
                     status=InvocationStatus.FAILED,
                     error=ErrorObject.from_exception(e),
@@ -485,10 +506,19 @@ def durable_execution(
                         execution_state.create_checkpoint_sync(failed_operation)
                     except CheckpointError as e:
                         return handle_checkpoint_error(e).to_dict()
+                    except BackgroundThreadError as bg_error:
+                        # the failure of this (or an earlier) call, handed over by the background thread
+                        if isinstance(bg_error.source_exception, CheckpointError):
+                            return handle_checkpoint_error(
+                                bg_error.source_exception
+                            ).to_dict()
+                        raise bg_error.source_exception from bg_error
                     return DurableExecutionInvocationOutput(
                         status=InvocationStatus.FAILED
                     ).to_dict()
 
+                if (answer := answer_for_failed_checkpointing()) is not None:
+                    return answer
                 return result
 
     return wrapper
